@@ -44,7 +44,7 @@ pub fn run_history_list(
 pub fn catalogue(callbacks_only: bool) -> Vec<History> {
     use super::grids::{N_STATES, state_prefix};
     let mut out = Vec::new();
-    let it = |kind, items: &[&str], slots: &[u8], hint| IterSpec { kind, items: items.iter().map(|s| s.to_string()).collect(), slots: slots.to_vec(), hint, panic_at: None, loose: None, fx: None };
+    let it = |kind, items: &[&str], slots: &[u8], hint| IterSpec { kind, items: items.iter().map(|s| s.to_string()).collect(), slots: slots.to_vec(), hint, panic_at: None, loose: None, fx: None, upper: None };
     let pieces = |p: &[&str]| Pieces { pieces: p.iter().map(|s| s.to_string()).collect(), err_at: None, panic_at: None, fx: None };
     for state in 0..N_STATES {
         let (prefix, _) = state_prefix(state);
